@@ -800,6 +800,8 @@ def impl_eval(U, node, path=""):
             else:
                 res = x ** node["e"]
         except Exception as e:
+            if _snap(U, x) != sx:
+                raise OperandMutated(path, "x (the operation raised)", sx, _snap(U, x))
             raise ImplRaised(path, e)
         if _snap(U, x) != sx:
             raise OperandMutated(path, "x", sx, _snap(U, x))
@@ -810,6 +812,11 @@ def impl_eval(U, node, path=""):
     try:
         res = (BIN if t == "bin" else CMP)[node["op"]](l, r)
     except Exception as e:
+        # an operation that is refused must leave its operands as they were, too
+        if _snap(U, l) != sl:
+            raise OperandMutated(path, "left (the operation raised)", sl, _snap(U, l))
+        if _snap(U, r) != sr:
+            raise OperandMutated(path, "right (the operation raised)", sr, _snap(U, r))
         raise ImplRaised(path, e)
     # arithmetic on quantities is arithmetic on values: an operator must not change its operands (a user who
     # re-uses b after a + b must still have b)
